@@ -72,9 +72,12 @@ Arguments Abort {A} w.
 
 Definition TM (A : Type) : Type := tstate -> out A * tstate.
 
-Definition UDP_TIMEOUT_MS : N := 5000.     (* nameserver.rs query_nameserver_udp: Duration::from_secs(5) *)
-Definition TCP_TIMEOUT_MS : N := 5000.     (* nameserver.rs query_nameserver_tcp: Duration::from_secs(5) *)
-Definition BUDGET_MS : N := 60000.         (* recursive.rs / forwarding.rs: Duration::from_mins(1) *)
+(* The three time-outs are read from the Rust source by tools/tables.py
+   (Generated/Tables.v, exported by Base/Prelude.v):
+     UDP_TIMEOUT_MS      nameserver.rs query_nameserver_udp: Duration::from_secs(5)
+     TCP_TIMEOUT_MS      nameserver.rs query_nameserver_tcp: Duration::from_secs(5)
+     RESOLVE_TIMEOUT_MS  recursive.rs / forwarding.rs: Duration::from_mins(1) *)
+Definition BUDGET_MS : N := RESOLVE_TIMEOUT_MS.
 Definition UDP_RECV_BUF : N := 512.        (* vec![0u8; 512] *)
 Definition REQUEST_ID : N := 0.
 
